@@ -139,6 +139,16 @@ def generate(rng, tier):
     for key in INSTS:
         for _ in range(reps):
             yield ops_case(rng, key, lits, unsort=rng.random() < 0.15)
+    # 5. long sorted histories for narrow length types: arrays longer than half the
+    #    length type's range, where index arithmetic done in the length type wraps
+    #    (added after seeded change C09-3: a midpoint computed as (LEN)(min+max)>>1)
+    narrow8 = [k for k in INSTS if k[4] == 8]
+    for key in (rng.sample(narrow8, min(len(narrow8), 6 if quick else 40))):
+        yield ops_case(rng, key, lits, cap=rng.choice([130, 200, 255]), nops=rng.choice([150, 270]))
+    if not quick:
+        narrow16 = [k for k in INSTS if k[4] == 16]
+        for key in rng.sample(narrow16, min(len(narrow16), 2)):
+            yield ops_case(rng, key, lits, cap=33500, nops=33600)
 
 
 def ops_case(rng, key, lits, unsort=False, cap=None, nops=None):
